@@ -272,8 +272,13 @@ def main(argv=None):
             doc = json.load(f)
         case = doc["case"] if isinstance(doc, dict) and "case" in doc else doc
         fails = mod.evaluate(case)
-        if fails:
-            for f in fails:
+        known = load_known(prop_id)
+        new = [f for f in fails if f["sig"] not in known]
+        for f in fails:
+            if f["sig"] in known:
+                print("KNOWN-FINDING: property=%s sig=%s %s" % (prop_id, f["sig"], known[f["sig"]]))
+        if new:
+            for f in new:
                 print("FAIL sig=%s %s" % (f["sig"], f["detail"][:400]))
             print("VIOLATION property=%s replay=%s" % (prop_id, replay_file))
             return 1
